@@ -162,6 +162,33 @@ func typeUnder(t types.Type) types.Type {
 	return t.Underlying()
 }
 
+func (g *Gen) outerLookup(name string, env *Env) (TV, bool) {
+	for p := g; p != nil; p = p.parent {
+		if p.outer == nil {
+			continue
+		}
+		if tv, ok := p.outer.vars[name]; ok {
+			return tv, true
+		}
+		if p.outer.lookup != nil {
+			if tv, ok := p.outer.lookup(name, env); ok {
+				return tv, true
+			}
+		}
+		if alt, ok := p.outerAlias[name]; ok {
+			if tv, ok := p.outer.vars[alt]; ok {
+				return tv, true
+			}
+			if p.outer.lookup != nil {
+				if tv, ok := p.outer.lookup(alt, env); ok {
+					return tv, true
+				}
+			}
+		}
+	}
+	return TV{}, false
+}
+
 func (g *Gen) noteRename(old, cur string) {
 	if g.renames == nil {
 		g.renames = map[string]string{}
@@ -181,6 +208,10 @@ func (g *Gen) transIdent(x *Expr, env *Env) TV {
 	if x.Name == "world" {
 		// the object carrying global ghost state
 		return TV{"1", SInt, nil}
+	}
+	// inside an inlined callee: the caller's variables at the call (inline.go)
+	if tv, ok := g.outerLookup(x.Name, env); ok {
+		return tv
 	}
 	// a variable of the function that was renamed since the contracts were written (locals.go)
 	if alt, ok := g.aliasOf[x.Name]; ok {
@@ -248,6 +279,9 @@ func (g *Gen) transSel(x *Expr, env *Env) TV {
 			}
 			if _, renamed := g.aliasOf[id.Name]; renamed {
 				resolved = true // a variable of the function under an earlier name (locals.go)
+			}
+			if _, ok := g.outerLookup(id.Name, env); ok {
+				resolved = true
 			}
 			if !resolved {
 				if pk := g.P.AllPkgs[id.Name]; pk != nil {
